@@ -1,4 +1,71 @@
-/- Model driver for C14 (stub: not built yet). -/
+/-
+Model driver for C14 (same ops and output format as harness/c14.cpp):
+  opl-esc <hex>    -> "ok <hex>" | "err invalid|incomplete|oob"
+  opl-unesc <hex>  -> "ok <hex> <unconsumed bytes>" | "err eol|nothex|toolong"
+  xml-esc <hex>    -> "<hex>"
+  xml-unesc <hex>  -> "ok <hex>" | "err"
+  blk <lo> <hi>    -> for every code point in [lo,hi): enc/oplesc/xmlesc/cp:len joined by ','
+-/
+import Osmium.Model.Escape
 import Driver.Common
 
-def main : IO Unit := pure ()
+open Osmium Driver
+
+def errStr : Utf8.Err → String
+  | .invalid => "invalid"
+  | .incomplete => "incomplete"
+  | .oob => "oob"
+
+def perrStr : Opl.PErr → String
+  | .eol => "eol"
+  | .notHex => "nothex"
+  | .tooLong => "toolong"
+
+/-- bytes of a C string: everything before the first NUL -/
+def cstr (bs : List UInt8) : List UInt8 := bs.takeWhile (· != 0)
+
+def blkOne (cp : Nat) : String :=
+  let enc := Utf8.encode cp
+  let o := match Opl.escape enc with
+    | .ok r => hex r
+    | .error e => "err-" ++ errStr e
+  let x := hex (Xml.escape enc)
+  let d := match Utf8.next enc with
+    | .ok (c, len) => toString c ++ ":" ++ toString len
+    | .error e => "err-" ++ errStr e
+  hex enc ++ "/" ++ o ++ "/" ++ x ++ "/" ++ d
+
+def step (line : String) : String :=
+  match words line with
+  | ["opl-esc", h] =>
+    match unhex h with
+    | some bs =>
+      match Opl.escape (cstr bs) with
+      | .ok r => "ok " ++ hex r
+      | .error e => "err " ++ errStr e
+    | none => "bad-op"
+  | ["opl-unesc", h] =>
+    match unhex h with
+    | some bs =>
+      match Opl.parseString (cstr bs) with
+      | .ok (r, rest) => "ok " ++ hex r ++ " " ++ toString rest.length
+      | .error e => "err " ++ perrStr e
+    | none => "bad-op"
+  | ["xml-esc", h] =>
+    match unhex h with
+    | some bs => hex (Xml.escape (cstr bs))
+    | none => "bad-op"
+  | ["xml-unesc", h] =>
+    match unhex h with
+    | some bs =>
+      match Xml.unescapeAttr bs with
+      | some r => "ok " ++ hex r
+      | none => "err"
+    | none => "bad-op"
+  | ["blk", lo, hi] =>
+    match lo.toNat?, hi.toNat? with
+    | some lo, some hi => ",".intercalate ((List.range (hi - lo)).map fun i => blkOne (lo + i))
+    | _, _ => "bad-op"
+  | _ => "bad-op"
+
+def main : IO Unit := loopPure step
